@@ -1,10 +1,16 @@
 import PermutaModel.Driver.C01
 import PermutaModel.Driver.C02
+import PermutaModel.Driver.C10
+import PermutaModel.Driver.C09
+import PermutaModel.Driver.C04
 
 namespace Driver
-def handlers : List (String → List String → Option String) :=
-  [Driver.C01.handle, Driver.C02.handle]
+/-- handlers by property id: a line `Cxx op args…` is dispatched to that property's handler only -/
+def handlers : List (String × (String → List String → Option String)) :=
+  [("C01", Driver.C01.handle), ("C02", Driver.C02.handle), ("C10", Driver.C10.handle), ("C09", Driver.C09.handle), ("C04", Driver.C04.handle)]
 
-def dispatch (op : String) (args : List String) : Option String :=
-  handlers.findSome? fun h => h op args
+def dispatch (prop op : String) (args : List String) : Option String :=
+  match handlers.find? (·.1 == prop) with
+  | some (_, h) => h op args
+  | none => none
 end Driver
